@@ -7,7 +7,11 @@ with environment events (replication of one object catching up, replica / primar
 The same op file runs through the Lean model (`lean/Driver/C44.lean`); lines are diffed.  Direct
 monitor on the implementation's lines: every dual read equals what the primary alone answers
 (`pri=`), no mutating/listing call ever reaches the replica, every write/list call reaches the
-primary exactly once, listings equal the primary's content.
+primary exactly once, and its result is exactly what the primary answered (`pans=`) — the primary's
+listing / ok, or the primary's ERROR when an injected primary fault (`popfail <Method> once|always`)
+fires, never the replica's listing — also checked against the monitor's own bookkeeping of the
+two buckets and the pending faults.  `restore` scenario: the real PartitionLog.RestoreFromS3 over
+the dual client with a lagging replica and a transient / persistent primary List fault.
 """
 from checks import lib
 
@@ -25,6 +29,15 @@ OBLIGATIONS = [
     "KafVerif.C44.reads_match_safe_history",
     "KafVerif.C44.reads_match_partial",
     "KafVerif.C44.writes_primary",
+    "KafVerif.C44.list_primary",
+    "KafVerif.C44.list_primary_or_error",
+    "KafVerif.C44.list_error_propagates",
+    "KafVerif.C44.list_never_replica",
+    "KafVerif.C44.list_retry_after_transient_fault",
+    "KafVerif.C44.list_persistent_fault",
+    "KafVerif.C44.write_result_is_primary_answer",
+    "KafVerif.C44.write_error_propagates",
+    "KafVerif.C44.writes_lists_independent_of_replica",
     "KafVerif.C44.replica_read_only",
     "KafVerif.C44.read_your_write",
     "KafVerif.C44.stale_overwrite_violates",
@@ -35,6 +48,9 @@ ASSUMPTIONS = [
     "both buckets have the range semantics of storage.MemoryS3Client (the backends in the harness ARE MemoryS3Clients behind a fault-injecting, call-recording wrapper)",
     "S3 replication copies whole current objects (or the absence of a deleted object) one object at a time, at any time or never; segment and index objects replicate independently",
     "the primary's own read faults are generated for the correspondence only; the property (and the monitor) compare with a healthy primary",
+    "faults of the non-download methods (UploadSegment, UploadIndex, DeleteSegment, DeleteIndex, ListSegments, EnsureBucket) are per method, "
+    "'once' (next call fails, retry succeeds) or 'always' (until cleared), on the primary and on the replica; a failing backend call changes "
+    "nothing in the bucket (that is how the fault-injecting fake behaves; a real S3 write whose response is lost may still have been applied)",
     "which backends a READ consults is not compared (only its result); which backend WRITES/LISTS reach is",
     "no cross-request state: in the model a read is a pure function of (primary state, replica state, key, range) "
     "(read_depends_only_on_own_request); validated on the implementation by `conc` ops (2-4 overlapping reads, same key / same start / "
@@ -43,9 +59,10 @@ ASSUMPTIONS = [
     "failing; validated by `rmode slowok|slowfail|hang` ops on context-aware fakes (they return ctx.Err() once the context is done) and by the "
     "`slow` scenario (replica stalls 2.5 s, caller deadline 20 s: the caller must still get the primary's bytes)",
 ]
-TECHNIQUE = "Lean 4: invariant (replica holds only current versions) by induction over all replication-safe histories => dual read = primary read for every key/range/fault set; witness theorems for the lagging-overwrite/delete case; differential correspondence + monitor on the real dualS3Client inside the broker binary"
-LEVEL_TEXT = ("proof (partial): reads_match_safe_history / read_seg_match / read_idx_match / writes_primary / replica_read_only are full strength for "
-              "histories in which the primary never changes or deletes an object the replica already holds; the unrestricted statement is false "
+TECHNIQUE = "Lean 4: writes/listings = the primary's answer incl. its error for every state, and non-interference (no write/list answer and no primary state depends on replica events) by induction over all histories with faults; invariant (replica holds only current versions) by induction over all replication-safe histories => dual read = primary read for every key/range/fault set; witness theorems for the lagging-overwrite/delete case; differential correspondence + monitor on the real dualS3Client inside the broker binary"
+LEVEL_TEXT = ("proof (partial): writes_primary / list_primary / list_never_replica / write_error_propagates / writes_lists_independent_of_replica / "
+              "replica_read_only are full strength for every state and history incl. faulty primaries; reads_match_safe_history / read_seg_match / "
+              "read_idx_match are full strength for histories in which the primary never changes or deletes an object the replica already holds; the unrestricted statement is false "
               "(stale_overwrite_violates, stale_delete_violates, full_statement_false)")
 LEVEL_NOTE = "correspondence and monitors are testing; they tie the model to the current source"
 BUILDS = {"broker": ("root", "./cmd/broker", ["C44"])}
@@ -62,6 +79,11 @@ def strip_read_calls(line):
     return line
 
 
+WRITE_METHOD = {"upseg": "UploadSegment", "upidx": "UploadIndex", "delseg": "DeleteSegment", "delidx": "DeleteIndex",
+                "list": "ListSegments", "ensure": "EnsureBucket"}
+METHOD_OP = {v: k for k, v in WRITE_METHOD.items()}
+
+
 class Sim:
     """what the generator / monitor know about the two buckets"""
 
@@ -69,11 +91,33 @@ class Sim:
         self.pri = {"seg": {}, "idx": {}}
         self.rep = {"seg": {}, "idx": {}}
         self.rfail, self.pfail = set(), set()
+        self.popf, self.ropf = {}, {}       # method -> "once" | "always" (injected faults of the non-download methods)
+
+    def pending(self, op):
+        """does the primary's injected fault fire on this dual-client call?"""
+        return self.popf.get(WRITE_METHOD.get(op), "none") != "none"
+
+    def listing(self, side):
+        b = self.pri if side == "pri" else self.rep
+        return ",".join("%d:%d" % (k, 0 if v == "-" else len(v) // 2) for k, v in sorted(b["seg"].items()))
+
+    def lagging(self):
+        return self.listing("rep") != self.listing("pri")
 
     def apply(self, f):
         op = f[0]
         if op == "new":
             self.__init__()
+        elif op in ("popfail", "ropfail"):
+            d = self.popf if op == "popfail" else self.ropf
+            if f[2] == "none":
+                d.pop(f[1], None)
+            else:
+                d[f[1]] = f[2]
+        elif op in WRITE_METHOD and self.pending(op):
+            # the primary's call fails: nothing changes, a 'once' fault is used up
+            if self.popf[WRITE_METHOD[op]] == "once":
+                del self.popf[WRITE_METHOD[op]]
         elif op in ("upseg", "upidx"):
             self.pri[op[2:]][int(f[1])] = f[2]
         elif op in ("delseg", "delidx"):
@@ -120,6 +164,54 @@ def gen_conc(rng, sim, k):
     return "conc " + ",".join(items)
 
 
+def gen_call(rng, sim, method, safe):
+    """one dual-client call of `method` (replication-safe when asked)"""
+    if method in ("ListSegments", "EnsureBucket"):
+        return METHOD_OP[method]
+    kind = "seg" if method.endswith("Segment") else "idx"
+    k = rng.below(NKEYS)
+    if method.startswith("Upload"):
+        b = body(rng)
+        if safe and k in sim.rep[kind] and sim.rep[kind][k] != b:
+            b = sim.rep[kind][k]
+        return "up%s %d %s" % (kind, k, b)
+    free = [x for x in range(NKEYS) if x not in sim.rep[kind]]
+    if safe and k in sim.rep[kind]:
+        if not free:
+            return "list"
+        k = rng.choice(free)
+    return "del%s %d" % (kind, k)
+
+
+def gen_primary_fault(rng, sim, safe):
+    """popfail <Method> once|always|none, mostly followed at once by the failing call and the caller's retries;
+    for ListSegments the replica is usually made to LAG first (an upload that is not replicated)."""
+    m = rng.choice(["ListSegments", "ListSegments", "ListSegments", "UploadSegment", "UploadIndex", "DeleteSegment", "DeleteIndex",
+                    "EnsureBucket"])
+    how = rng.choice(["once", "once", "once", "always", "always", "none"])
+    out = []
+
+    def emit(op):
+        out.append(op)
+        sim.apply(op.split())
+
+    if m == "ListSegments" and how != "none" and rng.chance(2, 3):
+        fresh = [x for x in range(NKEYS) if x not in sim.rep["seg"]]
+        if fresh:
+            emit("upseg %d %s" % (rng.choice(fresh), body(rng) or "07"))
+    emit("popfail %s %s" % (m, how))
+    if rng.chance(4, 5):
+        emit(gen_call(rng, sim, m, safe))
+        if rng.chance(3, 4):
+            emit(gen_call(rng, sim, m, safe))          # the retry
+        if how == "always" and rng.chance(3, 4):
+            emit("popfail %s none" % m)
+            emit(gen_call(rng, sim, m, safe))
+    elif how == "always":
+        emit("popfail %s none" % m)                    # persistent faults do not outlive the block
+    return out
+
+
 def gen_history(rng, n, safe):
     sim = Sim()
     ops = ["new"]
@@ -151,7 +243,12 @@ def gen_history(rng, n, safe):
             op = "ensure"
         elif r < 56:
             op = gen_conc(rng, sim, k)
-        elif r < 80:
+        elif r < 61:
+            ops += gen_primary_fault(rng, sim, safe)
+            continue
+        elif r < 62:
+            op = "ropfail %s %s" % (rng.choice(sorted(METHOD_OP)), rng.choice(["once", "always", "none", "none"]))
+        elif r < 82:
             if kind == "idx":
                 op = "rdidx %d" % k
             elif rng.chance(1, 2):
@@ -173,10 +270,6 @@ def gen_history(rng, n, safe):
     return ops
 
 
-WRITE_METHOD = {"upseg": "UploadSegment", "upidx": "UploadIndex", "delseg": "DeleteSegment", "delidx": "DeleteIndex",
-                "list": "ListSegments", "ensure": "EnsureBucket"}
-
-
 def monitor(ops, out):
     """Returns list of (index, fingerprint, what)."""
     bad = []
@@ -196,12 +289,28 @@ def monitor(ops, out):
             want = "w." + WRITE_METHOD[f[0]]
             if calls.count(want) != 1 or any(c.startswith("w.") and c != want for c in calls):
                 bad.append((i, "write-or-list-not-sent-to-primary-once", "%r made calls %r, expected exactly one %s" % (op, calls, want)))
+            res = o.split(" calls=")[0].replace(" ", ":")
+            pans = kv.get("pans", "none")
+            fault = sim.pending(f[0])
+            # (a) the result is what the primary backend answered to this very call — its value or its error
+            if pans != "none" and "+" not in pans and res != pans:
+                lag = " (the replica lags: it lists %r, the primary holds %r)" % (sim.listing("rep"), sim.listing("pri")) if sim.lagging() else ""
+                bad.append((i, "listing-is-not-the-primarys-answer" if f[0] == "list" else "write-result-is-not-the-primarys-answer",
+                            "%r returned %s but the primary answered %s%s" % (op, res[:80], pans[:80], lag)))
+            # (b) ... and that agrees with the monitor's own bookkeeping of the primary bucket and its pending faults
             if f[0] == "list":
-                got = o.split(" calls=")[0][5:]
-                want_l = ",".join("%d:%d" % (k, 0 if v == "-" else len(v) // 2) for k, v in sorted(sim.pri["seg"].items()))
-                if got != want_l:
-                    bad.append((i, "listing-differs-from-primary", "dual listing %r, primary holds %r" % (got, want_l)))
-            elif not o.startswith("ok"):
+                want_l = "list:" + sim.listing("pri")
+                if fault and res != "err":
+                    served = "the REPLICA's listing" if res == "list:" + sim.listing("rep") and sim.lagging() else "a listing"
+                    bad.append((i, "primary-list-error-not-propagated",
+                                "the primary's ListSegments fails (injected %s fault) but the dual listing returned %s %s; the primary holds %s"
+                                % (sim.popf.get("ListSegments"), served, res[:80], want_l[:80])))
+                elif not fault and res != want_l:
+                    bad.append((i, "listing-differs-from-primary", "dual listing %r, primary holds %r" % (res, want_l)))
+            elif fault and res != "err":
+                bad.append((i, "primary-write-error-not-propagated", "the primary's %s fails (injected %s fault) but %r -> %s" % (
+                    WRITE_METHOD[f[0]], sim.popf.get(WRITE_METHOD[f[0]]), op, o)))
+            elif not fault and res != "ok":
                 bad.append((i, "write-through-dual-failed", "%r -> %s" % (op, o)))
         elif f[0] == "conc":
             for it, part in zip(f[1].split(","), o.split()[1:]):
@@ -228,6 +337,29 @@ def monitor(ops, out):
                 else:
                     bad.append((i, "dual-read-differs-from-primary", "%r -> %s but the primary answers %s" % (op, res[:80], pri[:80])))
         sim.apply(f)
+    return bad
+
+
+def restore_violations(line):
+    """`restore want=11 replica=4 a1=err a2=11 b1=err b2=err c=11 rbad=-`: every restore attempt through the dual client either fails or
+    yields the primary's last offset; nothing but downloads reaches the replica."""
+    kv = dict(x.split("=", 1) for x in line.split()[1:])
+    bad = []
+    want = kv.get("want")
+    if want == kv.get("replica"):
+        bad.append(("restore-scenario-replica-does-not-lag", "scenario setup: the replica alone restores the same last offset as the primary: " + line))
+    names = {"a1": "primary List fails once, first attempt", "a2": "primary List fails once, the caller's retry",
+             "b1": "primary List fails persistently, first attempt", "b2": "primary List fails persistently, retry"}
+    for n, txt in names.items():
+        if kv.get(n) not in ("err", want):
+            bad.append(("restore-with-stale-listing-after-primary-list-error",
+                        "PartitionLog.RestoreFromS3 over the dual client, replica lags (replica alone: last offset %s), %s: restored last offset %s, "
+                        "the primary holds up to %s (offsets would be assigned again)" % (kv.get("replica"), txt, kv.get(n), want)))
+            break
+    if kv.get("c") != want:
+        bad.append(("restore-through-dual-differs-from-primary", "healthy primary: restore through the dual client gives %s, primary alone %s" % (kv.get("c"), want)))
+    if kv.get("rbad") != "-":
+        bad.append(("non-read-call-reached-replica", "restore scenario: calls %s reached the read replica" % kv.get("rbad")))
     return bad
 
 
@@ -266,6 +398,15 @@ def run(ck):
     cases.append((["new", "upseg 1 0102030405060708", "upidx 1 0a0b", "rmode 1 slowfail 5", "rdseg 1 1 3", "rdidx 1", "rmode 1 hang 5", "rdseg 1",
                    "replseg 1", "rmode 1 slowok 5", "rdseg 1 2 4", "rmode 1 fail", "conc s:1:0:2,s:1:0:5,s:1:-,i:1,s:2:0:1",
                    "upseg 2 1112131415", "conc s:2:1:1,s:2:1:3,s:1:1:2,s:2:1:9", "rmode 1 ok", "conc s:1:0:0,s:1:0:7"], True))
+    # faulty primary, lagging replica: the replica holds object 1 only, the primary 1 and 2; the primary's List fails once (the dual List
+    # must fail, the retry lists 1 and 2), then persistently; failing uploads/deletes/ensure store nothing and report the error
+    cases.append((["new", "upseg 1 010203", "upidx 1 0a", "replseg 1", "replidx 1", "upseg 2 0405", "upidx 2 0b",
+                   "popfail ListSegments once", "list", "list", "popfail ListSegments always", "list", "list", "popfail ListSegments none", "list",
+                   "popfail UploadSegment once", "upseg 3 09", "list", "rdseg 3", "upseg 3 09", "list", "rdseg 3",
+                   "popfail DeleteSegment always", "delseg 3", "delseg 3", "list", "popfail DeleteSegment none", "delseg 3", "list",
+                   "popfail UploadIndex once", "upidx 3 0c", "rdidx 3", "upidx 3 0c", "rdidx 3",
+                   "popfail DeleteIndex once", "delidx 3", "rdidx 3", "delidx 3", "rdidx 3",
+                   "popfail EnsureBucket once", "ensure", "ensure", "ropfail ListSegments always", "popfail ListSegments once", "list", "list"], True))
     for i in range(60 if q else 600):
         cases.append((gen_history(ck.rng.fork(), 80 if q else 200, True), True))
     for i in range(20 if q else 200):
@@ -288,6 +429,20 @@ def run(ck):
         ck.count("range_reads", sum(1 for x in ops if x.startswith("rdseg") and len(x.split()) == 4))
         ck.count("histories_safe" if safe else "histories_unsafe")
         ck.count("concurrent_read_batches", sum(1 for x in ops if x.startswith("conc ")))
+        fsim, nfault, nlag, nwerr = Sim(), 0, 0, 0
+        for x in ops:
+            xf = x.split()
+            if xf[0] in WRITE_METHOD and fsim.pending(xf[0]):
+                if xf[0] == "list":
+                    nfault += 1
+                    nlag += 1 if fsim.lagging() else 0
+                else:
+                    nwerr += 1
+            fsim.apply(xf)
+        ck.count("lists_under_primary_list_fault", nfault)
+        ck.count("lists_under_primary_list_fault_while_replica_lags", nlag)
+        ck.count("writes_or_ensures_under_primary_fault", nwerr)
+        ck.count("primary_method_fault_ops", sum(1 for x in ops if x.startswith("popfail ") and not x.endswith(" none")))
         ck.count("slow_or_hanging_replica_mode_ops", sum(1 for x in ops if x.startswith("rmode ") and x.split()[2] in ("slowok", "slowfail", "hang")))
         ck.case(tuple(ops), nontrivial=(rep_hits > 0 and fallbacks > 0), sample={"safe": safe, "ops": ops[:10], "impl": io[:10]})
         ck.cov["traces_validated_against_impl"] += 1
@@ -319,6 +474,18 @@ def run(ck):
                          "the replica copies it, after restart the next flush overwrites segment-0.kfs on the primary; reading offset 0 returns the "
                          "orphan batch (marker %s) instead of the acknowledged one (marker %s)" % (kv.get("read"), kv.get("primary")),
                          {"ops": ["scenario"], "impl": sc_impl[0]})
+    if ck.cov["distribution"].get("lists_under_primary_list_fault_while_replica_lags", 0) == 0:
+        ck.broke("generator", "no listing under a primary List fault with a lagging replica was generated")
+    # the higher-level path: PartitionLog.RestoreFromS3 through the dual client, lagging replica, primary List fault
+    rs_impl, _, crash = run_lines(ck, binary, ["restore"], "restore")
+    if crash or not rs_impl[0].startswith("restore want="):
+        ck.broke("restore scenario (PartitionLog.RestoreFromS3 over dualS3Client) did not run", crash or rs_impl[0])
+    else:
+        ck.case(("restore", rs_impl[0]), sample={"op": "restore", "impl": rs_impl[0]})
+        ck.cov["traces_validated_against_impl"] += 1
+        for (fp, what) in restore_violations(rs_impl[0]):
+            ck.violation(fp, what, {"ops": ["restore"], "impl": rs_impl[0]})
+        ck.count("restore_attempts_under_primary_list_fault", 4)
     # replicas that stall for 2.5 s (slow to fail / slow to answer) under a 20 s caller deadline
     sl_impl, _, crash = run_lines(ck, binary, ["slow"], "slow")
     if crash or not sl_impl[0].startswith("slow "):
@@ -362,6 +529,9 @@ def replay(ck, path):
                 res, pri = part.split("=", 1)[1].split("/")
                 if res != pri:
                     ck.violation("slow-replica-read-does-not-fall-back-to-primary", "slow scenario: %s" % part, {"ops": ops, "impl": o})
+        if o.startswith("restore want="):
+            for (fp, what) in restore_violations(o):
+                ck.violation(fp, what, {"ops": ops, "impl": o})
         if o.startswith("scenario "):
             kv = dict(x.split("=", 1) for x in o.split()[1:])
             if kv.get("read") != kv.get("primary"):
